@@ -236,10 +236,17 @@ def proof_stage(prop, notes):
     if bad:
         res['ok'] = False
         res['errors'].append('forbidden constructs: ' + '; '.join(bad[:5]))
-    gen_ok, gen_log = regenerate_tables(getattr(prop, 'gen_tables', []))
+    own = list(getattr(prop, 'gen_tables', []))
+    gen_ok, gen_log = regenerate_tables(own)
     if not gen_ok:
         res['ok'] = False
         res['errors'].append('translator: ' + gen_log[-600:])
+    # the other tables are regenerated as well, so that nothing generated from an earlier state of /repo stays behind
+    # (Gen/TypeTables.v is part of the executable model); a failure there is not this property's obligation
+    others = [t for t in ALL_TABLES if t not in own]
+    ok_o, log_o = regenerate_tables(others)
+    if not ok_o:
+        notes.append('translator (tables of other properties): ' + log_o[-300:])
     thm_file = prop.theorems_file
     src = strip_comments(open(os.path.join(COQ, thm_file)).read())
     thms = re.findall(r'^\s*(?:Theorem|Corollary)\s+(\w+)', src, re.M)
@@ -274,6 +281,9 @@ def tail_error(out):
         if l.startswith('File '):
             return ' | '.join(lines[i:i + 6])[:900]
     return ' | '.join(lines[-6:])[:900]
+
+
+ALL_TABLES = ['TypeTables', 'ErrFormats', 'PoolSites', 'NondetSites']
 
 
 def regenerate_tables(names):
